@@ -108,6 +108,16 @@ def cases(tier, seed):
                                     continue
                                 yield {"fam": fam, "parent": parent, "groups": groups, "m": m, "variant": vname, "sector": sec,
                                        "scheme": scheme, "time": timek}
+    # deep trees: a non-last child that carries a chain of last children (root[a[b[c]], d], root[a[b[c]], d[e, f]], ...): the order in which
+    # the one-site scheme revisits environments only matters from this depth on
+    for parent in ([-1, 0, 1, 2, 0], [-1, 0, 1, 2, 0, 4, 4], [-1, 0, 1, 2, 3, 0, 5, 5]):
+        m = len(parent)
+        for fam, sec in (("elec", [2]), ("spin", [0])):
+            if fam == "spin" and m > 5:
+                continue
+            for scheme in ("ps", "ps2"):
+                yield {"fam": fam, "parent": parent, "groups": [[i] for i in range(m)], "m": m, "variant": "deep", "sector": sec,
+                       "scheme": scheme, "time": "real"}
     for fam in ("elec", "eph"):
         for m in (2, 3, 4):
             for sec in sectors(fam, m)[1:2]:
@@ -238,6 +248,10 @@ def run_case(desc, seed):
             if np.linalg.norm(ref - psi0 / np.linalg.norm(psi0) * np.linalg.norm(ref)) > 1e-3 * np.linalg.norm(ref):
                 moved = True
             env_ = envelope(scheme, hnorm, dt, nsteps)
+            if desc["variant"] == "deep" and scheme == "ps":
+                # fixed-rank scheme on a tree too large for the random state to have complete bonds: the premise "sufficient bond
+                # dimension" does not hold, the propagator is not judged (the conservation laws below are)
+                env_ = np.inf
             if not np.isfinite(err) or err > env_:
                 add(viol, f"C12:propagator:{scheme}:{timek}", f"{tag} dt={dt} steps={nsteps}: relative error {err:.3e} exceeds the envelope {env_:.3e} (||H||={hnorm:.2f}); bond dims {cur.bond_dims}")
             if nsteps == 1:
@@ -272,7 +286,7 @@ def run_case(desc, seed):
                 add(viol, f"C12:order:{scheme}:{timek}", f"{tag}: one-step error {ea:.3e} (dt={a}) -> {eb:.3e} (dt={b}): ratio {ea / eb:.2f} < 2^{p + 1 - 0.6:.1f}")
     # one-site projector splitting at truncated bond dimension: norm and energy
     if scheme == "ps" and timek == "real":
-        for M in (1, 2):
+        for M in ((1, 2) if len(parent) < 5 else (1, 2, 3)):
             try:
                 tree, H, t = fresh(M)
             except (FloatingPointError, ValueError):
